@@ -202,6 +202,7 @@ def summarise(it, seq, node, gen, frame):
         p.assumed = outer.assumed
         base = len(p.pc)
         sub = type(it)(p, loop_specs=it.loop_specs, summaries=it.summaries)
+        sub.depth, sub.active = max(1, it.depth), list(getattr(it, 'active', []))
         fr = Frame(frame.fn, {}, frame.node, frame.qn)
         fr.globals, fr.cells, fr.parent = frame.globals, frame.cells, frame
         try:
@@ -323,6 +324,7 @@ def generator_filter_loop(it, node, frame, seq):
         p.assumed = outer.assumed
         base = len(p.pc)
         sub = type(it)(p, loop_specs=it.loop_specs, summaries=it.summaries)
+        sub.depth, sub.active = max(1, it.depth), list(getattr(it, 'active', []))
         fr = Frame(frame.fn, dict(frame.locals), frame.node, frame.qn)
         fr.globals, fr.cells, fr.parent = frame.globals, frame.cells, frame.parent
         ys = []
